@@ -131,8 +131,10 @@ def check(col, prog, tier, profile, fixture=None):
             base = False
             for f in st.facts:
                 t = f[1]
-                if isinstance(t, tuple) and t and t[0] == "call" and str(t[1]).endswith("PartialEq::ne") and ((f[0] == "eq") == bool(f[2])):
-                    if any(s[0] == "call" and str(s[1]).endswith("Rem::rem") for s in subterms(t)):
+                if isinstance(t, tuple) and t and t[0] == "call" and str(t[1]).endswith(("PartialEq::ne", "PartialEq::eq")) and f[0] in ("eq", "ne"):
+                    truth = (f[0] == "eq") == bool(f[2])
+                    differs = truth if str(t[1]).endswith("::ne") else not truth
+                    if differs and any(s[0] == "call" and str(s[1]).endswith("Rem::rem") for s in subterms(t)):
                         base = True
             key = "%s|none-%s" % (fk(egcd), "propagated" if prop else "base-test")
             if prop or base:
@@ -195,7 +197,8 @@ def check(col, prog, tier, profile, fixture=None):
             col.violation("Q2", key, lcm.loc(), "lcm is not (|a| / gcd(a,b)) * |b| with the division first: sign or overflow behaviour changes (%s)" % tstr(ret))
 
     # ---------------- Q3
-    I = util.analyse(crt)
+    free = [f for f in crate.bodies if not f.is_closure and f.kind == "Fn" and f.container is None and f.vis != "pub" and not util.self_recursive(f)]
+    I = util.analyser(free)(crt)
     a1, m1, a2, m2 = (("param", i, I.names.get(i)) for i in (1, 2, 3, 4))
     for st in I.final_states:
         ret = util.ret_term(st)
